@@ -16,6 +16,8 @@ CURVES = {
     "syn2": ("synth", dict(n_app=700, n_ret=300, noise=5e-11, seed=5,
                            tilt=2e-5, model_key="hertz_cone")),
     "rec1": ("recorded", "fmt-jpk-fd_spot3-0192.jpk-force"),
+    # very short segments: several continuous features are undefined
+    "syn3": ("synth", dict(n_app=45, n_ret=30, noise=2e-11, seed=9)),
     # syn1 with ONE force sample changed / with only the time column changed
     "syn1x": ("synth", dict(n_app=300, noise=2e-11, seed=3, perturb="force")),
     "syn1t": ("synth", dict(n_app=300, noise=2e-11, seed=3, perturb="time")),
